@@ -196,6 +196,26 @@ def decide(prop, tier, seed, mod, obs, results, wall, args, declared):
       errors.append('%s: %s' % (o.id, r['detail'][:1500]))
   if n_req < declared and not args.only:
     errors.append('only %d required obligations generated, contract file declares >= %d' % (n_req, declared))
+  # mechanical scan: every cut target named in the contract file(s) of this property, with the status of the callee contract
+  import re as _re
+  cut_used = set()
+  try:
+    import inspect
+    from verif.contracts import cutlist
+    srcs = [inspect.getsource(mod)]
+    for extra in ('C09x', 'C14b', 'havoc', 'cuts', 'C04', 'C10', 'C11', 'C02', 'C15') if prop in ('C09', 'C14', 'C15', 'C07', 'C06', 'C08', 'C12', 'C05', 'C02') else ():
+      try:
+        srcs.append(inspect.getsource(importlib.import_module('verif.contracts.%s' % extra))) if extra != prop and ('%s.' % extra) in srcs[0] + ' ' else None
+      except Exception:      # noqa: BLE001
+        pass
+    text = '\n'.join(x for x in srcs if x)
+    for t in cutlist.CUTS:
+      if ("'%s'" % t) in text or (t in ('havoc.step', 'havoc.reset') and 'havoc' in text):
+        cut_used.add(t)
+    cut_report = ['%s -- %s: %s' % (t, cutlist.CUTS[t][0], cutlist.CUTS[t][1]) for t in sorted(cut_used)]
+    n_assume = len(_re.findall(r'A\.assume', text))
+  except Exception as e:      # noqa: BLE001
+    cut_report, n_assume = ['scan failed: %s' % e], -1
   level = getattr(mod, 'LEVEL', 'other')
   cov = {
       'obligations': n_req, 'discharged': n_dis,
@@ -210,11 +230,16 @@ def decide(prop, tier, seed, mod, obs, results, wall, args, declared):
       'known_findings_hit': [{'obligation': o.id, 'what': k['what']} for o, k in known_hit],
       'undecided_required': undecided,
       'per_obligation': per,
+      'callee_cuts': cut_report,
+      'assume_sites_in_contract_files': n_assume,
   }
   if bounded_eval:
     cov['evaluations'] = bounded_eval
     cov['distinct_nontrivial'] = bounded_distinct
     cov['rule'] = getattr(mod, 'BOUNDED_RULE', 'bounded stand-in evaluations (never counted as proved)')
+  for c_ in cut_report:
+    if ' -- assumed' in c_:
+      assumptions.add('assumed contract of a cut callee: ' + c_)
   ev = {'property_id': prop, 'tier': tier, 'seed': seed, 'level': level, 'coverage': cov,
         'assumptions': sorted(assumptions), 'wall_s': round(wall, 2), 'violations': violations}
   if not args.no_evidence and not args.only:
